@@ -21,7 +21,7 @@ def run(tier, seed):
                 "parameters); every source is instantiated 2-5 times at different positions; the workspace is built k times "
                 "with shuffled shard/module order and perturbed environment; records grouped by (variant, attr, input) must "
                 "agree on the output tokens (spacing included). non-trivial = group with >= 3 observations from >= 2 processes")
-    n = 500 if tier == "quick" else 6000
+    n = 500 if tier == "quick" else 2500
     builds = 3 if tier == "quick" else 6
     rng = core.rng_for(PROP, seed)
     base = expand_corpus.corpus("b", n, rng)
@@ -58,7 +58,10 @@ def run(tier, seed):
     for b in range(builds):
         # instantiate every source 2-5 times under fresh case ids, in shuffled order
         inst = []
+        slow = int(envs[b % len(envs)].get("CARGO_BUILD_JOBS", "16")) <= 3
         for c in base:
+            if slow and tier != "quick" and rng.random() < 0.7:
+                continue   # builds with very few jobs only take a sample of the corpus (wall-clock budget)
             for d in range(rng.randint(2, 5) if b == 0 else rng.randint(1, 2)):
                 cid = "i%d_%d_%s" % (b, d, c.id)
                 inst.append(core.Case(cid, c.src.replace(c.id, "IDENT"), run=False, expect="expand"))
